@@ -695,9 +695,14 @@ def generate(rng, tier, index):
             plan["variant"] = "plain"
     if plan["variant"] == "open-fault":
         if frags:
+            kinds_ = list(OPEN_KINDS)
+            if all(u.startswith("http://") for u in store):
+                # the server ends the connection before the length it
+                # announced: what arrived is not the resource
+                kinds_ += ["read-truncated"] * 4
             plan["fault"] = {"seam": "open",
                              "at": rng.randint(1, len(frags)),
-                             "kind": rng.choice(OPEN_KINDS)}
+                             "kind": rng.choice(kinds_)}
         else:
             plan["variant"] = "plain"
     plan["store"] = store
